@@ -123,9 +123,19 @@ impl ConnectionState {
         &mut self,
         inner: &mut Inner,
         reply_code: AMQPHardError,
-        reply_text: String,
+        mut reply_text: String,
     ) -> Result<()> {
         error!("{} - closing connection", reply_text);
+        // reply_text travels as an AMQP short string: at most 255 bytes. The texts
+        // built by our callers embed the Debug rendering of the offending frame and
+        // can be longer; a longer string would serialize into a corrupt Close frame.
+        if reply_text.len() > 255 {
+            let mut end = 255;
+            while !reply_text.is_char_boundary(end) {
+                end -= 1;
+            }
+            reply_text.truncate(end);
+        }
         let close = ConnectionClose {
             reply_code: reply_code.get_id(),
             reply_text,
